@@ -5,6 +5,7 @@ from symx import core, values, driver
 from . import common
 
 LK = RT = None
+LEVEL = "exploration"
 
 
 def setup():
